@@ -15,10 +15,10 @@
    Every event is judged; events the specification does not accept are collected in rej. *)
 EXTENDS Grease, Json
 Trace == ndJsonDeserialize("c04_trace.ndjson")
-VARIABLES l, rej, seen, coll
-vars == <<l, rej, seen, coll>>
+VARIABLES l, rej, seen, coll, pairs
+vars == <<l, rej, seen, coll, pairs>>
 NoSeen == [k \in Kinds |-> {}]
-Init == l = 1 /\ rej = <<>> /\ seen = NoSeen /\ coll = 0
+Init == l = 1 /\ rej = <<>> /\ seen = NoSeen /\ coll = 0 /\ pairs = {}
 
 Spec(g) == Trace[g].spec
 
@@ -35,13 +35,21 @@ Explained(ev) ==
     [] ev.ev = "EndGroup" -> Trace[ev.g].mode = "constrand" \/ FreshOK(seen, SpecGrease(Spec(ev.g)))
     [] OTHER -> FALSE
 
+\* connections whose GREASE seed was chosen by the harness (constrand: all seed bytes equal; pairrand: every pair of
+\* nibbles for the two extension seeds).  The two extension seeds collided when they select the same nibble - either
+\* still visible in the logged seed, or already repaired by ApplyPreset (second seed = first seed's nibble, bits 4/12 flipped)
+Nib(x) == (x % 256) \div 16
+Forced(ev) == ev.ev = "Hello" /\ Trace[ev.g].mode \in {"constrand", "pairrand"} /\ Len(ev.seed) >= 4
+Collided(seed) == Nib(seed[3]) = Nib(seed[4]) \/ Nib(Xor1010(seed[4])) = Nib(seed[3])
+\* the pair of nibbles found in the logged seed (after a repair the equal pair (n, n) shows as (n, n xor 1))
+DrawnPair(seed) == <<Nib(seed[3]), Nib(seed[4])>>
 \* bookkeeping shared by Good and Skip: accumulate the values seen in the current group
 Book(ev) ==
   /\ seen' = IF ev.ev = "Hello" /\ ev.sent /\ ParseHello(ev.raw).ok
              THEN LET g == HelloGrease(ParseHello(ev.raw)) IN [k \in Kinds |-> seen[k] \cup Range(g[k])]
              ELSE IF ev.ev \in {"Group", "EndGroup"} THEN NoSeen ELSE seen
-  /\ coll' = IF ev.ev = "Hello" /\ Trace[ev.g].mode = "constrand" /\ Len(ev.seed) >= 4 /\ ev.seed[4] = Xor1010(ev.seed[3])
-             THEN coll + 1 ELSE coll
+  /\ coll' = IF Forced(ev) /\ Collided(ev.seed) THEN coll + 1 ELSE coll
+  /\ pairs' = IF ev.ev = "Hello" /\ Trace[ev.g].mode = "pairrand" /\ Len(ev.seed) >= 4 THEN pairs \cup {DrawnPair(ev.seed)} ELSE pairs
 
 Why(ev) ==
   CASE ev.ev = "Boring" -> <<"boring-not-grease", ev.idx, Cardinality({v \in DOMAIN ev.vals : ~IsGrease16(ev.vals[v])})>>
@@ -65,5 +73,6 @@ Next == Good \/ Skip
 Report == (l = Len(Trace) + 1) =>
             /\ PrintT(<<"DONE", l - 1>>)
             /\ PrintT(<<"COLLIDED", coll>>)
+            /\ PrintT(<<"PAIRS", Cardinality(pairs)>>)
             /\ \A i \in DOMAIN rej : PrintT(<<"REJ", ToJson(rej[i])>>)
 =============================================================================
